@@ -286,7 +286,9 @@ struct Run : ContBase {
         loadable_case = s.chance(1, 3);
         c.op("listtbl(%s%s%s%s%s)%s", m.o.unique ? "UNIQUE " : "", m.o.ci ? "CASEINSENSITIVE " : "", m.o.top ? "INSERTTOP " : "", m.o.fwd ? "LOOKUPFORWARD" : "", ob == 0 ? "default" : "", loadable_case ? " [save/load case: string values, file-safe keys]" : "");
         vf_ledger_on = 1;
-        t = qlisttbl(optbits(m.o));
+        int lopt = s.chance(1, 4) ? QLISTTBL_THREADSAFE : 0;   // a thread-safe table used by one thread behaves like a plain one
+        if (lopt) c.tag("threadsafe_option_single_thread");
+        t = qlisttbl(optbits(m.o) | lopt);
         if (!t) c.fail(FUNC, "listtbl:ctor", "qlisttbl() returned NULL");
         int maxops = c.tier ? 1500 : 300, ops = 0;
         while (!s.exhausted() && ops++ < maxops) {
